@@ -212,7 +212,7 @@ def run_stream(ctx, cases, stream):
         revs.append(r)
     cgroup.run_cases(ctx, cases, with_query=True)
     cgroup.run_cases(ctx, revs, with_query=False)
-    attach(cases, revs, ctx, sample=40 if stream == "generated" else 0)
+    attach(cases, revs, ctx, sample=40 if stream == "generated" else 10 ** 6)  # corpus cases are always run under g++ too
     for c, r in zip(cases, revs):
         ctx.count(f"stream:{stream}")
         if not c.result["ok"]:
